@@ -111,9 +111,9 @@ def replay_witnesses(ctx):
     # (name, node, embedding, finding key, exception) - exception None: a defect repaired in /repo,
     # the node must now be refused with a configuration error
     wits = [
-        ('w_enum_null', {'class': 'uenum', 'size': 8, 'mappings': None}, 'member', 'NEW-KeyError-_create_enum_ft', 'KeyError'),
+        ('w_enum_null', {'class': 'uenum', 'size': 8, 'mappings': None}, 'member', 'NEW-KeyError-_create_enum_ft', None),
         ('w_align_float', {'class': 'uint', 'size': 8, 'alignment': 8.0}, 'member',
-         'S19-integral-float-TypeError-_validate_alignment', 'TypeError'),
+         'S19-integral-float-TypeError-_validate_alignment', None),
         ('w_S14', {'class': 'static-array', 'element-field-type': {'class': 'uint', 'size': 8}}, 'member',
          'S14-static-array-KeyError-length', None),
         ('w_S4', {'class': 'dynamic-array', 'zz': 1}, 'member', 'S4-dynamic-array-KeyError', None),
